@@ -156,6 +156,11 @@ pub struct Counters {
     /// atomic operations executed by library code of calls on simulated threads
     #[serde(default)]
     pub atomic_ops: u64,
+    /// conflict-directed holds started / conflicts (another thread reached the held address)
+    #[serde(default)]
+    pub atomic_holds: u64,
+    #[serde(default)]
+    pub atomic_conflicts: u64,
 }
 
 pub struct SimState {
@@ -206,6 +211,8 @@ impl SimState {
                 block_yields: 0,
                 atomic_yields: 0,
                 atomic_ops: 0,
+                atomic_holds: 0,
+                atomic_conflicts: 0,
             },
             session_open: false,
             session_transition: Vec::new(),
